@@ -815,6 +815,124 @@ func checkC15(p *Prog, r *Report) {
 	// ---- R15.14 lookup-or-create is atomic ----------------------------------------------------------------------
 	r.Rule("R15.14", "Where the per-ufrag table is looked up and an entry is created on a miss (the first packet of a connection, GetConnByUfrag), the mux mutex is held from the lookup to the creation without being released in between: two concurrent misses cannot both create, so no packet connection is overwritten in the table and orphaned with its TCP connections.", 2)
 	checkLookupCreateAtomic(p, r)
+
+	// ---- R15.15 attaching a TCP connection and closing the packet connection exclude each other ---------------
+	r.Rule("R15.15", "A TCP connection is entered in tcpPacketConn.conns only in a critical section of the packet connection's mutex that has first tested 'closed' (a receive from closedChan or isClosed()), with no release in between; and closedChan is closed while that mutex is held: Close, which closes every attached connection under the mutex, can therefore not run between the test and the entry — a connection accepted while its ufrag is being removed is refused (and closed by the caller), not attached to a dead packet connection where nobody closes it.", 2)
+	checkAttachClosedAtomic(p, r)
+}
+
+// checkAttachClosedAtomic (R15.15).
+func checkAttachClosedAtomic(p *Prog, r *Report) {
+	const mu = "tcpPacketConn.mu"
+	closedRecv := func(n ast.Node) bool {
+		found := false
+		if n == nil {
+			return false
+		}
+		ast.Inspect(n, func(x ast.Node) bool {
+			if u, ok := x.(*ast.UnaryExpr); ok && u.Op == token.ARROW && p.IsField(u.X, "tcpPacketConn.closedChan") {
+				found = true
+			}
+			return true
+		})
+		return found
+	}
+	stores, closes := 0, 0
+	for _, f := range p.AllFuncs {
+		if f.Pkg != p.Ice || f.Body == nil {
+			continue
+		}
+		walkBody(f, func(n ast.Node) bool {
+			// close(t.closedChan) under the mutex
+			if c, ok := n.(*ast.CallExpr); ok {
+				if id, ok := unparen(c.Fun).(*ast.Ident); ok && id.Name == "close" && len(c.Args) == 1 && p.IsField(c.Args[0], "tcpPacketConn.closedChan") {
+					if _, isBuiltin := p.ObjOf(id).(*types.Builtin); isBuiltin {
+						closes++
+						r.Check(p.HeldAt(f, c)[mu], "closedChan is closed under the packet connection's mutex in "+f.Name, p.Pos(c.Pos()), mu+" held", "closedChan is closed without "+mu+": AddConn's closed test and its entry in conns no longer exclude Close, so a connection can be attached after Close has swept conns and is never closed")
+					}
+				}
+				return true
+			}
+			as, ok := n.(*ast.AssignStmt)
+			if !ok {
+				return true
+			}
+			for _, l := range as.Lhs {
+				ix, ok := unparen(l).(*ast.IndexExpr)
+				if !ok || !p.IsField(ix.X, "tcpPacketConn.conns") {
+					continue
+				}
+				stores++
+				g := p.CFG(f)
+				sl, okS := g.Locate(as)
+				held := p.HeldAt(f, as)[mu]
+				// blocks that end in a closed test made with the mutex held
+				tests := map[*Block]bool{}
+				var testLocs []Loc
+				for _, b := range g.Blocks {
+					for _, e := range b.Succs {
+						if e.Cond == nil {
+							continue
+						}
+						var at ast.Node
+						switch e.Cond.Op {
+						case "comm":
+							if closedRecv(e.Cond.Stmt) {
+								at = e.Cond.Stmt
+							}
+						case "truth", "==":
+							for _, x := range []ast.Expr{e.Cond.X, e.Cond.Y} {
+								if x != nil && (p.mentionsCall(x, "ice.tcpPacketConn.isClosed") || closedRecv(x)) {
+									at = x
+								}
+							}
+						}
+						if at != nil && p.HeldAt(f, at)[mu] {
+							tests[b] = true
+							testLocs = append(testLocs, Loc{b, len(b.Nodes)})
+						}
+					}
+				}
+				guarded := false
+				if okS {
+					_, escapes := g.PathAvoiding(Loc{g.Entry, 0}, nil, func(b *Block) bool { return b == sl.B }, func(e *Edge) bool { return !tests[e.From] })
+					guarded = !escapes && sl.B != g.Entry
+				}
+				after := func(from, to Loc) bool {
+					if from.B == to.B && from.I < to.I {
+						return true
+					}
+					var succ []*Block
+					for _, e := range from.B.Succs {
+						succ = append(succ, e.To)
+					}
+					return g.Reach(succ, nil)[to.B]
+				}
+				gap := ""
+				for _, b := range g.Blocks {
+					for i, nd := range b.Nodes {
+						if _, isDefer := nd.(*ast.DeferStmt); isDefer {
+							continue
+						}
+						for _, c := range p.NodeCalls(nd) {
+							if p.isMethodOnField(c, mu, "Unlock") {
+								for _, tl := range testLocs {
+									if okS && after(tl, Loc{b, i}) && after(Loc{b, i}, sl) {
+										gap = p.Pos(nd.Pos())
+									}
+								}
+							}
+						}
+					}
+				}
+				r.Check(held && guarded && gap == "", "attach in "+f.Name+" is one critical section with the closed test", p.Pos(as.Pos()), mu+" held from the closed test to the entry in conns", fmt.Sprintf("the entry in conns is not in one critical section with a closed test (mutex held at the entry: %v; every path tests closed under the mutex: %v; released in between at: %q): Close can sweep conns between the test and the entry, and the connection attached afterwards is never closed, its reader keeps running and its packets are dropped", held, guarded, gap))
+			}
+			return true
+		})
+	}
+	if stores < 1 || closes < 1 {
+		r.Fail("attach / close sites of tcpPacketConn", "tcp_packet_conn.go", fmt.Sprintf("%d stores into conns, %d close(closedChan) found (rule instance lost)", stores, closes))
+	}
 }
 
 func rootIdent(e ast.Expr) *ast.Ident {
